@@ -26,16 +26,20 @@ NAV = [(1, 'B', 'A', None), (1, 'A', 'B', None), (2, 'C', 'A', None), (2, 'A', '
 RELATE = [(1, 'B', 'A', None, None), (1, 'A', 'B', None, None), (2, 'C', 'A', None, None),
           (3, 'A', 'A', 'precedes', None), (3, 'A', 'A', 'succeeds', None),
           (4, 'A', 'B', None, 'L'), (4, 'B', 'A', None, 'L')]
-FUNCS = {'f_int': (INT, [('num', INT), ('txt', STR)]), 'f_str': (STR, [('txt', STR)]), 'f_bool': (BOOL, []),
+# the *_shadow callables declare the parameter names of the home actions with other types: a parameter read
+# must resolve within its own action
+FUNCS = {'f_shadow': (VOID, [('p_int', STR), ('p_str', BOOL), ('p_bool', INT)]),
+         'f_int': (INT, [('num', INT), ('txt', STR)]), 'f_str': (STR, [('txt', STR)]), 'f_bool': (BOOL, []),
          'f_void': (VOID, [('num', INT)]), 'f_three': (INT, [('first', INT), ('flag', BOOL), ('third', STR)])}
-BRIDGES = {'b_int': (INT, [('num', INT)]), 'b_void': (VOID, [('txt', STR), ('num', INT)]), 'b_str': (STR, [])}
+BRIDGES = {'b_shadow': (VOID, [('p_int', BOOL), ('p_str', INT), ('p_bool', STR)]), 'b_int': (INT, [('num', INT)]), 'b_void': (VOID, [('txt', STR), ('num', INT)]), 'b_str': (STR, [])}
 CLASS_OPS = {'cop_int': (INT, [('num', INT)]), 'cop_void': (VOID, [])}
-INST_OPS = {'iop_int': (INT, [('num', INT), ('txt', STR)]), 'iop_void': (VOID, []), 'iop_bool': (BOOL, [('flag', BOOL)])}
+INST_OPS = {'iop_shadow': (VOID, [('p_int', STR), ('p_str', BOOL), ('p_bool', INT)]), 'iop_int': (INT, [('num', INT), ('txt', STR)]), 'iop_void': (VOID, []), 'iop_bool': (BOOL, [('flag', BOOL)])}
 HOME_PARAMS = [('p_int', INT), ('p_str', STR), ('p_bool', BOOL)]
 ENUMERATORS = ['Red', 'Green', 'Blue']
 ENUMERATORS2 = ['Blue', 'Happy', 'Red']        # shares names with Color on purpose
 CONSTS = [('C_INT', INT, '42'), ('C_STR', STR, 'hello'), ('C_BOOL', BOOL, 'true')]
 HOMES = ('function', 'bridge', 'operation', 'derived')
+VOID_HOMES = ('bridge', 'derived', 'state', 'transition')      # their bodies return no value
 # outside the quantified domain of C05/C06/C08 (explored by C06 without verdict): state machine actions
 EXTRA_HOMES = ('state', 'transition')
 EVENT = 'event'            # the type of a variable holding a created event instance (inst<Event>)
@@ -72,7 +76,7 @@ def diagram():
         d.functions.append((bp.Callable_(n, r, p, ''), 'pkg'))
     d.functions.append((bp.Callable_('home_fn', INT, HOME_PARAMS, ''), 'pkg'))
     brgs = [bp.Callable_(n, r, p, '') for n, (r, p) in BRIDGES.items()]
-    brgs.append(bp.Callable_('home_brg', INT, HOME_PARAMS, ''))
+    brgs.append(bp.Callable_('home_brg', VOID, HOME_PARAMS, ''))     # a home without return value
     d.ees = [('External', 'EX', brgs, 'pkg')]
     d.constants = [('Consts', list(CONSTS), 'pkg')]
     for (kl, kind), evs in EVENTS.items():
@@ -537,10 +541,8 @@ class Gen(object):
                 return None
             return om.generate_preexisting(T(om.var(r.choice(evs)[0]), EVENT))
         if k == 'return':
-            if self.home == 'derived':
-                return None
-            if self.home in HOME_EVENT_DATA:
-                return om.return_(None)
+            if self.home in VOID_HOMES:
+                return om.return_(None)       # a bare return (possibly with statements before it in its block)
             return om.return_(self.expr(INT, 2))
         if k == 'stop':
             return om.control_stop() if r.random() < 0.3 else None
@@ -595,7 +597,7 @@ class Gen(object):
                 break
         if self.home == 'derived':
             out.append(om.assign(T(om.field(T(om.self_(), ('inst', 'A')), 'der'), INT), self.expr(INT, 2)))
-        elif self.home in HOME_EVENT_DATA:
+        elif self.home in VOID_HOMES:
             if not out or self.rng.random() < 0.2:
                 out.append(om.return_(None))
         elif out[-1].cls not in ('ReturnNode', 'ControlNode') if out else True:
